@@ -17,6 +17,6 @@ chunks = re.split(r"@@(\w+)\n", r.stdout)
 for i in range(1, len(chunks), 2):
     name, text = chunks[i], chunks[i + 1].strip()
     lemma = dict(pairs)[name]
-    m = re.match(r"[\w.]+\s*:\s*(.*)", text, flags=re.S)
+    m = re.match(r"[\w.']+\s*:\s*(.*)", text, flags=re.S)
     ty = m.group(1).rstrip()
     print(f"Theorem {name} :\n  {ty}.\nProof. exact {lemma}. Qed.\nPrint Assumptions {name}.\n")
